@@ -72,6 +72,9 @@ type FuncSpec struct {
 	Callbacks map[string]string // callee expr -> callback contract name
 	CallSites map[string]string // call site -> overriding contract key
 	CommitMayFail bool
+	Preserves []Clause
+	StrKeysPairwise bool
+	Invokes   string
 }
 
 type SpecFunc struct {
@@ -196,7 +199,7 @@ func parseClause(text, file string, line int) Clause {
 var keywords = map[string]bool{"spec": true, "func": true, "trusted": true, "lemma": true, "requires": true,
 	"ensures": true, "ensures_on_panic": true, "may_panic": true, "modifies": true, "loop": true, "decreases": true,
 	"=": true, "witness": true, "ghost": true, "use": true, "assert": true, "replay_domain": true, "props": true,
-	"uninterpreted": true, "nobody": true, "callback": true, "end": true, "trigger": true, "ghostvar": true, "pred": true, "dead": true, "native": true, "callsite": true, "monitor": true, "lock": true, "cond": true, "protects": true, "owns": true, "invariant": true, "rely": true, "holds": true, "shared": true, "thread": true, "opaque": true, "anyargs": true, "applies": true}
+	"uninterpreted": true, "nobody": true, "callback": true, "end": true, "trigger": true, "ghostvar": true, "pred": true, "dead": true, "native": true, "callsite": true, "monitor": true, "lock": true, "cond": true, "protects": true, "owns": true, "invariant": true, "rely": true, "holds": true, "shared": true, "thread": true, "opaque": true, "anyargs": true, "applies": true, "preserves": true, "invokes": true, "strkeys": true}
 
 // LoadSpecs reads every zz_contracts_verif.go below root plus extra files.
 func LoadSpecs(files []string) *Specs {
@@ -429,6 +432,19 @@ func (sp *Specs) loadFile(file string) {
 			} else {
 				mustF(curF, base, rl.line).Requires = append(curF.Requires, c)
 			}
+		case "preserves":
+			// preserves <inv>: required at entry and ensured at exit (an invariant of the captured state);
+			// it is what a caller knows after code it does not see has invoked the closure any number of times
+			c := parseClause(rest, base, rl.line)
+			mustF(curF, base, rl.line).Requires = append(curF.Requires, c)
+			curF.Ensures = append(curF.Ensures, c)
+			curF.Preserves = append(curF.Preserves, c)
+		case "strkeys":
+			// strkeys pairwise: relate the identities of all computed map/store keys of this function by content
+			mustF(curF, base, rl.line).StrKeysPairwise = true
+		case "invokes":
+			// invokes <param>: the function may call the closure passed as <param> any number of times
+			mustF(curF, base, rl.line).Invokes = strings.TrimSpace(rest)
 		case "ensures":
 			c := parseClause(rest, base, rl.line)
 			if curL != nil {
